@@ -37,9 +37,24 @@ def _rows(g, start, seed, stop_nodes, func_name):
 def _canon(rows):
     """Rename remaining free locals by first appearance so that naming is not
     a difference; returns a set of hashable rows."""
+    import re
     out = set()
     for atoms, effects, outcome, lines in rows:
-        out.add((atoms, effects, outcome))
+        # one spelling per test: `(0 != X)` is the negation of `(0 == X)`;
+        # the conjunction is a set (the order in which independent tests are
+        # made is not a difference); a value known to be NULL on the path is
+        # NULL when it is returned
+        norm_atoms = set()
+        for t, truth in atoms:
+            m = re.fullmatch(r"\((-?\d+) != (.+)\)", t)
+            if m and isinstance(truth, bool):
+                t, truth = f"({m.group(1)} == {m.group(2)})", not truth
+            norm_atoms.add((t, truth))
+        if outcome[0] == "RETURN" and (f"(0 == {outcome[1]})", True) \
+                in norm_atoms:
+            outcome = ("RETURN", "0")
+        out.add((tuple(sorted(norm_atoms, key=lambda a: (a[0], str(a[1])))),
+                 effects, outcome))
     return out
 
 
